@@ -70,6 +70,7 @@ class World:
         self.nwr = 0
         self.nwx = 0
         self.nack = 0
+        self.in_callback = False   # the link-error callback is running (inside the comm thread)
         self.drv = None
         self.user = None           # ThreadRec of the application thread
         self.usbdev = FakeUsbDev(self)
@@ -165,6 +166,7 @@ class FakeUsbDev:
         self.w.log('wr', a, o='A')
 
     def read(self, endpoint, n, timeout=None):
+        self.w.log('rd', 0)
         if self.w.gone:
             _park('dev.read', self, 0.002)
         elif not self.w.down:
@@ -199,8 +201,8 @@ class FakeRadioDev:
         pass
 
     def ctrl_transfer(self, bmRequestType, bRequest, wValue=0, wIndex=0, data_or_wLength=None, timeout=None):
-        if self.w.gone:
-            raise _usb_error('No such device (it may have been disconnected)', -4)
+        # (an unplugged dongle would fail here too; that kills the _SharedRadio thread -- a hang, not a
+        # transmission, outside this property -- so the scripted dongle only refuses data transfers)
         if bmRequestType & 0x80:
             return array.array('B', [0] * (data_or_wLength or 0))
         return 0
@@ -340,7 +342,7 @@ class LogQueue(vqueue.Queue):
 
     def get(self, block=True, timeout=None):
         w = LogQueue.world
-        mine = w is not None and isinstance(vthreading.current_thread(), LogQueue.thread_cls or ())
+        mine = w is not None and not w.in_callback and isinstance(vthreading.current_thread(), LogQueue.thread_cls or ())
         try:
             item = vqueue.Queue.get(self, block, timeout)
         except vqueue.Empty:
@@ -446,6 +448,7 @@ class App:
         if not w.sc.get('cb') or self.busy._locked:
             return
         self.busy._locked = True            # no yield point between the report and the decision
+        w.in_callback = True
         try:
             w.log('closeb', 0, f='none', cb=1)
             ok = 1
@@ -455,6 +458,7 @@ class App:
                 ok = 0
             w.log('close', ok, cb=1, hd=w.held(), q=w.outq())
         finally:
+            w.in_callback = False
             self.busy._locked = False
 
     def connect(self):
@@ -519,7 +523,7 @@ class App:
         with self.busy:
             self._mark('api.begin')
             w.log('jam', 0)
-            w.jam = JAMLEN
+            w.jam = 0 if w.gone else JAMLEN
 
     def receive(self):
         w = self.w
@@ -778,6 +782,7 @@ def random_scenarios(kind, n, rng):
 
 # --------------------------------------------------------------------------- judging
 SLIM = ('e', 'a', 'o', 'f', 'cb', 'hd', 'q')
+DROP = ('down', 'rx', 'lerru')          # bookkeeping events that neither the monitor nor the design spec looks at
 
 
 def _init():
@@ -797,8 +802,10 @@ def judge(out, traces, label):
     """All traces through the trace spec; returns [(trace, clause, event index, conf, confAt)] for
     every trace (verdict 'ok' included)."""
     slim = [{'id': t['id'], 'kind': t['kind'], 'cb': t['cb'], 'sl': t['sl'],
-             'ev': [{k: e[k] for k in SLIM if k in e} for e in t['ev']]} for t in traces]
-    verdicts, st = common.validate_traces('DriverCloseTrace.tla', 'TRACE_DriverClose.cfg', slim)
+             'ev': [{k: e[k] for k in SLIM if k in e} for e in t['ev'] if e['e'] not in DROP]} for t in traces]
+    nb = max(1, min(common.NCPU, 8, len(slim) // 1500 + 1))          # few, large batches: a TLC start costs ~3 CPU s
+    verdicts, st = common.validate_traces('DriverCloseTrace.tla', 'TRACE_DriverClose.cfg', slim,
+                                          chunk=min(4000, (len(slim) + nb - 1) // nb))
     out.traces += len(traces)
     out.states += st['states']
     out.transitions += st['transitions']
